@@ -1,1 +1,35 @@
-From QH Require Import Bytes SocketM SockSpec.
+(* Properties_C18.v — C18: write-progress notifications count body bytes only. *)
+From Coq Require Import String List ZArith.
+From QH Require Import Bytes SocketM SockProofs.
+Local Open Scope Z_scope.
+
+(* After the header block (H bytes) has gone out, for EVERY list of acknowledgements (sizes >= 0)
+   interleaved in any order with further body writes, the bytesWritten notifications sum to
+   max 0 (acknowledged - H): header bytes are never reported, and once everything is
+   acknowledged the sum is exactly the number of body bytes. *)
+Theorem C18_progress_counts_body_only : forall e p s ops k,
+  Forall ack_op ops -> constructed s = true ->
+  let s0 := fst (write_headers s) in
+  let H := blen (response_head (code s) (reason s) (rh s)) in
+  written_sum (snd (run_ops_from e p k s0 ops)) = Z.max 0 (acks_sum ops - H).
+Proof. exact progress_counts_body_only. Qed.
+Print Assumptions C18_progress_counts_body_only.
+
+(* the one-step invariant behind it: acknowledging n bytes in any bookkeeping state *)
+Theorem C18_ack_step_invariant : forall H acked emitted s n,
+  0 <= n -> ack_inv H acked emitted s ->
+  ack_inv H (acked + n) (emitted + written_sum (snd (on_bytes_written s n))) (fst (on_bytes_written s n)).
+Proof. exact on_bytes_written_inv. Qed.
+Print Assumptions C18_ack_step_invariant.
+
+(* non-vacuity: a 19-byte head, acks 18+1+5 / 19+5 / 21+6 as in the boundary cases *)
+Example C18_nonvacuous :
+  let s := fst (step {| version := nil; url_table := nil |}
+                     {| on_headers := fun _ => nil; on_ready := nil; on_finished := nil; hdr_after := false |}
+                     init_sock Construct) in
+  constructed s = true /\
+  blen (response_head (code s) (reason s) (rh s)) = 19 /\
+  written_sum (snd (run_ops_from {| version := nil; url_table := nil |}
+                     {| on_headers := fun _ => nil; on_ready := nil; on_finished := nil; hdr_after := false |}
+                     0 (fst (write_headers s)) (Ack 18 :: App (AWrite (B "hello"%string)) :: Ack 1 :: Ack 5 :: nil))) = 5.
+Proof. vm_compute. repeat split. Qed.
